@@ -19,7 +19,7 @@ RW_TIMES = {'src': (101, 102), 'bor': 201, 'fresh': 1000, 'stale': 50}
 SLICES = {
     'quick': [('rw-status', 'Dom_status', 'Keep_status_q', 600), ('rw-graph', 'Dom_graph', 'Keep_graph_q', 600),
               ('rw-sources', 'Dom_sources', 'KeepAll', 600), ('rw-dest', 'Dom_dest', 'Keep_dest_q', 500)],
-    'thorough': [('rw-status', 'Dom_status', 'KeepAll', None), ('rw-graph', 'Dom_graph', 'KeepAll', None),
+    'thorough': [('rw-status', 'Dom_status', 'KeepAll', 20000), ('rw-graph', 'Dom_graph', 'Keep_graph_t', 30000),
                  ('rw-sources', 'Dom_sources', 'KeepAll', None), ('rw-dest', 'Dom_dest', 'KeepAll', None)],
 }
 
